@@ -494,6 +494,7 @@ def run(fx, tier):
     recovery_after_internal_disconnect(fx, v)
     handshake_span_rule(fx, v, 'C19')
     iterator_outlives_move_rule(fx, v, 'C19')
+    authenticator_present_rule(fx, v, 'C19')
     from c04 import reconnect_discards_buffer_rule
     v.rule('R-DOM', 'bytes buffered from a lost connection are discarded before the next read; exact-count reads of the handshake are not replaced by raw partial reads')
     reconnect_discards_buffer_rule(fx, v, 'C19')
@@ -733,3 +734,129 @@ def iterator_outlives_move_rule(fx, v, prop='C19'):
                        'for short strings the characters move with the object' % (nm, l, moved[d]),
                        key='%s:R-BOUNDS:%s::%s:iterator-outlives-move' % (prop, f.cls, f.n), where='%s:%s' % (f.path_file(), l))
     v.ok('R-BOUNDS', 'iterator-outlives-move', '%d functions take a range directly from a string object; none of them also moves that object' % n_fn)
+
+
+# ---------------------------------------------------------------------------------------------- authenticator present (F11)
+
+_STR_WRITERS = ('operator=', 'reset', 'swap', 'clear', 'assign', 'append', 'push_back', 'pop_back', 'resize', 'erase',
+                'insert', 'operator+=', 'replace')
+
+
+def _auth_member(x, names=('_method', '_auth_fun')):
+    x = strip(x)
+    return isinstance(x, dict) and x.get('k') == 'mem' and x.get('cls') == 'any_authenticator' and x.get('n') in names
+
+
+def _present_guard(f, cond, pol, depth=0):
+    """does (cond, pol) establish that an authenticator object is installed?
+         !X.method().empty()        (X an any_authenticator; the class invariant ties a non-empty method to a non-null _auth_fun)
+         X._auth_fun != nullptr / bool(X._auth_fun)      (inside the class or through a helper)
+       a helper predicate of any_authenticator is opened one level."""
+    c = origin(f, cond) if depth == 0 else cond
+    c = unwrap(c)
+    while isinstance(c, dict) and c.get('k') == 'un' and c.get('op') == '!':
+        c, pol = unwrap(c.get('e')), ('F' if pol == 'T' else 'T')
+    if not isinstance(c, dict):
+        return False
+    def via_method(t):
+        return contains(t, lambda m: m.get('k') == 'call' and callee_name(m) == 'method' and callee_cls(m) == 'any_authenticator') \
+            or contains(t, lambda m: _auth_member(m, ('_method',)))
+    if c.get('k') == 'call' and callee_name(c) == 'empty' and via_method(c.get('obj')):
+        return pol == 'F'
+    cm = comparison(c, pol)
+    if cm:
+        op, l, r = cm
+        for a, b, o in ((l, r, op), (r, l, _FLIP.get(op, op))):
+            ua, ub = unwrap(a), unwrap(b)
+            zero = isinstance(ub, dict) and (ub.get('c') == 0 or ub.get('k') in ('nullptr',) or ub.get('v') == 0)
+            if zero and isinstance(ua, dict) and ua.get('k') == 'call' and callee_name(ua) in ('size', 'length') and via_method(ua.get('obj')):
+                return o in ('!=', '>')
+            if zero and contains(ua, lambda m: _auth_member(m, ('_auth_fun',))):
+                return o == '!='
+    if c.get('k') == 'call' and callee_name(c) in ('operator bool',) and contains(c, lambda m: _auth_member(m, ('_auth_fun',))):
+        return pol == 'T'
+    return False
+
+
+def authenticator_present_rule(fx, v, prop='C19'):
+    """F11: any_authenticator is a type-erased, possibly EMPTY holder (default constructed: no method, null _auth_fun); its
+    async_auth dereferences _auth_fun unconditionally.  Whether the handshake calls it is decided by bytes the broker sends
+    (an AUTH packet; a CONNACK), so every call must be dominated by a test that an authenticator is installed — a test of the
+    CONNECT property `authentication_method` is not one: the user can set that property without installing an authenticator.
+      (a) class invariant  every constructor leaves `_method` empty or `_auth_fun` pointing at a new object, and the two
+          members are only ever written together (memberwise copy/move)
+      (b) every any_authenticator::async_auth call site is dominated by !X.method().empty() (or a null test of _auth_fun),
+          locally or at every call site of the enclosing function."""
+    v.rule('R-TYPESTATE', 'the type-erased authenticator is dereferenced only where an installed authenticator is established '
+           '(non-empty method()); constructors keep "method non-empty ⇒ object present"')
+    # ---- (a)
+    n_ctor = 0
+    seen = set()
+    for f in fx.functions(cls='any_authenticator'):
+        if not f.d.get('ctor') or (f.file, f.d.get('f')) in seen:
+            continue
+        inits = {i.get('field'): i.get('init') for i in f.d.get('inits', [])}
+        m, a = inits.get('_method'), inits.get('_auth_fun')
+        def memberwise(x, fld):
+            return isinstance(x, dict) and x.get('k') == 'ctor' and len(x.get('args', [])) >= 1 and _auth_member(unwrap(x['args'][0]), (fld,))
+        if memberwise(m, '_method') and memberwise(a, '_auth_fun'):
+            continue
+        seen.add((f.file, f.d.get('f')))
+        n_ctor += 1
+        m_empty = m is None or (isinstance(m, dict) and m.get('k') == 'ctor' and not [x for x in m.get('args', []) if x.get('k') != 'defarg'])
+        a_set = a is not None and contains(a, lambda n: n.get('k') == 'new')
+        v.saw(f)
+        v.check(m_empty or a_set, 'R-TYPESTATE', 'any_authenticator::any_authenticator@%s' % f.d.get('f', '').split(':')[-1],
+                'constructor leaves the method empty (%s) or installs a new authenticator object (%s)' % (m_empty, a_set),
+                key=prop + ':R-TYPESTATE:any_authenticator:ctor-invariant', where=f.d.get('f'))
+    # writers of the two members outside constructors
+    for f in fx.fns:
+        written = {}
+        for b, i, l, x in f.elements():
+            for n in Expr.walk(x):
+                tgt = None
+                if n.get('k') == 'call' and callee_name(n) in _STR_WRITERS and _auth_member(f.resolve(n.get('obj')) if n.get('obj') else None):
+                    tgt, src = strip(f.resolve(n['obj']))['n'], (n.get('args') or [None])[0]
+                elif n.get('k') == 'assign' and _auth_member(f.resolve(n.get('l'))):
+                    tgt, src = strip(f.resolve(n['l']))['n'], n.get('r')
+                if tgt:
+                    written[tgt] = (l, src is not None and contains(f.resolve(src), lambda m_: _auth_member(m_, (tgt,))))
+        if not written:
+            continue
+        ok = set(written) == {'_method', '_auth_fun'} and all(w[1] for w in written.values())
+        v.check(ok, 'R-TYPESTATE', '%s::%s:writes-authenticator-members [%s]' % (f.cls, f.n, f.tu),
+                '_method and _auth_fun are written only together, each from the same member of another any_authenticator (%s)'
+                % sorted(written), key=prop + ':R-TYPESTATE:any_authenticator:member-writer', where=f.file)
+    # ---- (b)
+    n_sites = 0
+    for f in fx.fns:
+        if f.cls == 'any_authenticator':
+            continue
+        for b, i, l, c in f.calls():
+            if callee_name(c) != 'async_auth' or callee_cls(c) != 'any_authenticator':
+                continue
+            n_sites += 1
+            v.saw(f)
+            local = any(_present_guard(f, cond, pol) for cond, pol, gb in edge_guards(f, b))
+            how = 'locally'
+            ok = local
+            if not local:
+                callers = []
+                for g in fx.fns:
+                    if g.tu != f.tu:
+                        continue
+                    for b2, i2, l2, c2 in g.calls():
+                        if c2.get('k') == 'call' and fx.callee(g, c2) is f:
+                            callers.append((g, b2, l2))
+                ok = bool(callers) and all(any(_present_guard(g, cond, pol) for cond, pol, gb in edge_guards(g, b2)) for g, b2, l2 in callers)
+                how = 'at every call site of %s (%s)' % (f.n, ', '.join('%s@%d' % (g.tag or g.n, l2) for g, b2, l2 in callers) or 'no caller found')
+            fname = '%s::%s%s' % (f.cls, f.n, '(' + f.tag + ')' if f.tag else '')
+            v.check(ok, 'R-TYPESTATE', '%s%s:async_auth@%d [%s]' % (fname, f.inst()[:25], l, f.tu),
+                    'any_authenticator::async_auth %s dominated by a test that an authenticator is installed (%s)'
+                    % ('is' if ok else 'is NOT', how),
+                    key=prop + ':R-TYPESTATE:%s:authenticator-present' % fname, where='%s:%d' % (f.path_file(), l))
+    if not v.violations:
+        if n_ctor < 2:
+            raise AnalysisBroken('any_authenticator: constructors not found (%d)' % n_ctor)
+        if n_sites < 4:
+            raise AnalysisBroken('any_authenticator::async_auth: call sites not found (%d)' % n_sites)
